@@ -42,10 +42,43 @@ def tier_conf(mod, tier):
     return conf
 
 
-SHARD_ENVS = {5: "python-O", 6: "debug-logging"}
+SHARD_ENVS = {5: "python-O", 6: "debug-logging", 4: "cwd-removed", 7: "auditok-variables-set"}
 
 
 def apply_shard_env(kind):
+    os.environ["TAKE"] = "7"  # always defined: file names that contain $TAKE / ${TAKE} are ordinary file names
+    if kind == "cwd-removed":
+        # the directory the process was started in has been deleted (a cleaned-up job directory): nothing the library does for
+        # absolute paths or in-memory audio may depend on os.getcwd()
+        import tempfile
+
+        d = tempfile.mkdtemp(prefix="vf-gone-")
+        os.chdir(d)
+        os.rmdir(d)
+    if kind == "auditok-variables-set":
+        # whatever AUDITOK_* variable the library may look up IS set in this environment (to a plausible value): what the
+        # statements fix - regions, windows, laziness, defaults - does not depend on the process environment
+        real = os.environ
+        vals = ("8", "1", "0.15", "true", "16")
+
+        def answer(key):
+            try:
+                k = key if isinstance(key, str) else key.decode()
+            except Exception:
+                return None
+            if "AUDITOK" in k.upper():
+                return vals[sum(map(ord, k)) % len(vals)]
+            return None
+
+        orig_get, orig_getitem, orig_contains, orig_getenv = type(real).get, type(real).__getitem__, type(real).__contains__, os.getenv
+
+        try:
+            type(real).get = lambda self, key, default=None: (answer(key) if answer(key) is not None else orig_get(self, key, default))
+            type(real).__getitem__ = lambda self, key: (answer(key) if answer(key) is not None else orig_getitem(self, key))
+            type(real).__contains__ = lambda self, key: (True if answer(key) is not None else orig_contains(self, key))
+            os.getenv = lambda key, default=None: (answer(key) if answer(key) is not None else orig_getenv(key, default))
+        except TypeError:
+            pass
     if kind == "debug-logging":
         import logging
 
